@@ -1863,3 +1863,11 @@ Print Assumptions assemble_counted_are_present.
 Print Assumptions RebuildRunExamples.v2_hypotheses.
 Print Assumptions RebuildRunExamples.v2_restores_example.
 Print Assumptions RebuildRunExamples.v1_restores_example.
+
+(* what v1_justified says, unfolded (cited by Props/C14.v) *)
+Lemma v1_justified_means : forall (H1 : bytes -> bytes) (fm : filemap) (nodes : list (bytes * list pathnode)) l pn data,
+  v1_justified H1 fm nodes l pn data <->
+  exists piece paths chosen, In (piece, paths) nodes /\ valid_choice fm paths chosen /\
+    H1 (choice_bytes paths chosen) = piece /\ In (pn, (l, data)) (combine paths chosen) /\
+    In pn paths /\ indexed fm (pn_filename pn) (l, data) /\ List.length data = pn_length pn.
+Proof. intros; reflexivity. Qed.
